@@ -614,9 +614,16 @@ impl Prop for C04 {
     const ID: &'static str = "C04";
 
     fn lanes(tier: Tier) -> Vec<Lane> {
-        vec![Lane::new("main", tier.pick(20_000, 450_000))
-            .cap(tier.pick(150, 900))
-            .floor(tier.pick(2_000, 20_000))]
+        vec![
+            Lane::new("main", tier.pick(20_000, 450_000))
+                .cap(tier.pick(150, 900))
+                .floor(tier.pick(2_000, 20_000)),
+            // BPE tokenizers over merge tables of 65 300 - 70 000 entries, cut points around the
+            // 2^16 id boundary
+            Lane::new("large", tier.pick(32, 640))
+                .cap(tier.pick(300, 1200))
+                .floor(tier.pick(4, 80)),
+        ]
     }
 
     fn rule() -> &'static str {
@@ -642,15 +649,24 @@ impl Prop for C04 {
         ]
     }
 
-    fn generate(rng: &mut Rng, _tier: Tier, _lane: &str) -> Case {
+    fn generate(rng: &mut Rng, _tier: Tier, lane: &str) -> Case {
+        let large = lane == "large";
         let kind = match rng.random_range(0..100) {
+            _ if large => "bpe",
             0..=29 => "byte",
             30..=54 => "char",
             _ => "bpe",
         };
         let ambiguous = rng.random_bool(0.1);
         let mut spec = gen_spec(rng, ambiguous);
-        let table = if kind == "bpe" { gen_table(rng) } else { vec![] };
+        let table = if large {
+            // a merge table beyond 2^16 entries (ids beyond u16)
+            super::c03::table_huge(rng).1
+        } else if kind == "bpe" {
+            gen_table(rng)
+        } else {
+            vec![]
+        };
         // keep special spellings distinct from regular tokens
         let rename = |s: &mut String| {
             if table.iter().any(|e| e.as_slice() == s.as_bytes()) || s.len() == 1 {
@@ -679,8 +695,15 @@ impl Prop for C04 {
         if kind == "bpe" {
             let base = 256 + spec.tokens.len();
             let n = table.len();
-            for k in 0..=n {
-                cuts.push(Some(base + k));
+            if large {
+                // cut points around the 2^16 id boundary instead of every cut point
+                for k in [65_535 - base, 65_536 - base, 65_537 - base, 65_280, 65_281, n - 1, n] {
+                    cuts.push(Some(base + k.min(n)));
+                }
+            } else {
+                for k in 0..=n {
+                    cuts.push(Some(base + k));
+                }
             }
             cuts.extend([Some(0), Some(200), Some(256), Some(base - 1), Some(base + n + 5)]);
         }
